@@ -1,6 +1,6 @@
 (* C08 - Sampling estimation is exact under ideal sampling and stays within budget. *)
 From Coq Require Import List ZArith Reals.
-From QPM Require Import Sampling.
+From QPM Require Import Sampling SamplingMean.
 Import ListNotations.
 
 (* each group that received shots is evaluated from the counts of ITS OWN measurement circuit;
@@ -52,3 +52,28 @@ Example c08_example :
   prep nat nat (fun g => if Nat.eqb g 1 then 0%Z else 7%Z) (fun g => (g + 100)%nat) [0%nat; 1%nat; 2%nat]
   = [(100%nat, 7%Z); (102%nat, 7%Z)].
 Proof. reflexivity. Qed.
+
+
+(* "exact under ideal sampling": when the counts of a group are exact outcome frequencies (count_b = N * p_b with
+   sum p_b = 1, any N <> 0), general_pauli_sum_expectation_estimator returns the coefficient-weighted sum of the exact
+   means  sum_b p_b * eigenvalue_P(b)  of the labels present in both the group and the coefficient map (1 for the
+   identity label) - for any number of outcomes, labels and any coefficients *)
+Theorem exact_frequencies_give_the_exact_group_expectation :
+  forall (B L : Type) (recon : L -> B -> R) (is_id : L -> bool) (N : R) (pr : list (B * R)) (ps : list L)
+         (coef : L -> option R),
+  N <> 0%R -> ctotal R B 0%R Rplus pr = 1%R ->
+  pauli_sum_expectation R B L 0%R 1%R Rplus Rmult Rdiv recon is_id (scale B N pr) ps coef
+  = fold_right (fun p a => match coef p with Some c => exact_mean B L recon is_id pr p * c + a | None => a end)%R 0%R ps.
+Proof. exact exact_frequencies_give_exact_group_expectation. Qed.
+Print Assumptions exact_frequencies_give_the_exact_group_expectation.
+
+(* a single-label estimate never leaves [-1, 1] (eigenvalues +-1, non-negative counts, at least one shot) *)
+Theorem single_label_estimate_is_in_the_unit_interval :
+  forall (B L : Type) (recon : L -> B -> R) (is_id : L -> bool) (cs : list (B * R)) (p : L),
+  (forall b, -1 <= recon p b <= 1)%R -> Forall (fun bc => 0 <= snd bc)%R cs -> (0 < ctotal R B 0%R Rplus cs)%R ->
+  (-1 <= pauli_expectation R B L 0%R 1%R Rplus Rmult Rdiv recon is_id cs p <= 1)%R.
+Proof. exact estimate_within_unit_interval. Qed.
+
+Example exact_frequencies_nonvacuous :
+  ctotal R bool 0%R Rplus [(true, (1 / 4)%R); (false, (3 / 4)%R)] = 1%R /\ (1000 <> 0)%R.
+Proof. split; [cbn; field|apply not_eq_sym, Rlt_not_eq; apply IZR_lt; reflexivity]. Qed.
